@@ -7,18 +7,24 @@ Three parts, one verdict:
                the table, that every contract-guarded site is discharged (`guarded_sites_safe`) and that the
                open obligations are exactly the reviewed list of lean/GPy/C10/Expected.lean
                (`obligations_open`, `open_assert_panic_keys`, `index_obligations_open`): a new unguarded
-               `x.(T)` / `panic(` / index expression breaks a proof obligation.
+               `x.(T)` / `panic(` / index expression breaks a proof obligation.  Guards recognised (second round): literal-format
+               ParseTuple* (format_guarantee), `self.(T)` in the Go function of a Method/Property stored in T.Dict
+               (Bind.receiver_guarantee), `self.(*py.Module)` in a module-table function (Bind.module_function_self),
+               the first result of MakeBool (Bind.makeBool_returns_bool), comma-ok / type switch, init-time panics.
  2. correspond (common.py, Lean direction) the contract models (ParseTupleAndKeywords, UnpackTuple,
                Method.M__call__, IndexIntCheck) against the real functions.
  3. extra(run) THE SWEEP (direction reversed, DESIGN.md 2.2 step 4): harness/c10.go enumerates by reflection
                every callable reachable from builtins and from each builtin type's attribute table, the Go-level
                operators/helpers and the source-level operator/subscript forms, and calls each with every
-               argument tuple of arity 0-2 (and arity 3 seeded / thorough: fuller) over a universe of 50
+               argument tuple of arity 0-2 (and arity 3 seeded / thorough: fuller) over a universe of 54
                representative values, each call under recover(), batches in child processes with a watchdog
                and RLIMIT_AS.  A Go panic / process abort is a VIOLATION with (callable, args) as replay,
                unless its ASSERTION SITE (innermost gpython function + panic kind, computed by the harness
                from the panicking stack) is a recorded known finding: the `kf=` tag is attached HERE from the
                site -> ID map `SITE_KF` below, because the inputs originate on the Go side.
+               Second round: keyword sweep (`S <callable> <arity> kwfull|kwseeded:s:n`: the last argument goes by keyword under
+               each of the harness's 33 keyword names; replay form `C <callable> i,j@name`), callables DERIVED by a call
+               (bound / unbound Go methods) are called in turn, statement and attribute forms (`f:`).
 """
 import os, sys, json, re, collections, time
 import common
@@ -27,27 +33,30 @@ FACTS = os.path.join(common.WORK, "C10.assertsites.json")
 
 # site (as printed by harness/c10.go: <pkg>/<file>.go:<function>|<kind>) -> known finding
 SITE_KF = [
-    (re.compile(r"^py/[a-z_]+\.go:init\|assert$"), "C10-K01"),          # method closures of the type tables: self.(T)
-    (re.compile(r"^py/set\.go:.*\|hash$"), "C10-K02"),                   # unhashable Go values as set elements
+    # (C10-K01 receiver assertions: repaired by d16b718 and now DISCHARGED by Bind.receiver_guarantee; C10-K02 unhashable set
+    #  elements: repaired by 906384b.  A panic at those sites is a violation again.)
     (re.compile(r"^py/(list|tuple)\.go:.*M__i?mul__\|(make|slice|index)$"), "C13-K04"),
 ]
 # programs that are known to abort the process (run alone, one process each)
 ABORT_PROGRAMS = [
     ("C10-K03", "l = []\\nl.append(l)\\nrepr(l)"),
-    ("C10-K03", "def f(): return f()\\nf()"),
 ]
 # programs that must simply not panic (found by reading; kept as a corpus)
 PROGRAMS = [
     "open(mode='r')", "list(map(globals, [1]))", "sorted([1, 2], key=locals)", "str(ValueError())", "type('a', slice(1), '')",
     "bytes(2**63-1)", "'' * (2**63-1)", "'ab' * 2**62", "__build_class__(lambda: 1, None)", "print(sep=None)", "compile(filename='a', mode='exec', flags=0)",
     "int(base=3)", "range(stop=1)", "sorted(key=1)", "max(key=1)", "str.upper('a')", "(1).__add__()", "getattr(1)", "None < None",
+"def f(): return f()\\nf()", "def g(n): return sorted([1, 2], key=lambda x: g(n + 1))\\ng(0)", "def h(): yield from h()\\nlist(h())",
+    "print.__get__(5, int)('x')", "len.__get__(1, int)([])", "type(lambda: 0).__code__.__get__(1, int)", "type(1j).real.__get__('a', str)", "type(slice(1)).start.__set__(3, 3)",
+    "type(lambda: 0).__defaults__.__delete__(1)", "class A:\\n    def __repr__(self): return 1\\nascii(A())", "{(1, 2)}", "{b''}", "set([(1, 2)])", "{1}.add(b'ab')", "{1}.discard((1,))",
+    "{x for x in [(1,)]}", "set(iter([[1], (2,)]))", "class B:\\n    f = len\\n    p = print\\nB().f([1])\\nB().p('x')", "list.append.__get__(None, 5)(1, 2)",
     "x = {}\\nx[1] = 2", "[].sort(key=1)", "import nosuch", "raise 1", "del x", "1/0", "class A(1): pass", "f = lambda: (yield)\\nnext(f())",
 ]
 
 CONFIG = {
     "rule": "(a) contract cases (Lean direction): every ParseTupleAndKeywords format of length <= 2 over a 16-symbol alphabet x every argument tuple of length <= 2 over 8 value kinds x "
             "keyword-list/keyword-dictionary/result-count variants, seeded longer formats, UnpackTuple / Method.M__call__ / IndexIntCheck lattices; non-trivial = format with | $ : ; # *, an error outcome, or a default kept.  "
-            "(b) sweep (Go direction): every callable enumerated by reflection x every argument tuple of arity 0-2 over the 50-value universe, arity 3 seeded (thorough: full for builtins, type tables, operators, forms); "
+            "(b) sweep (Go direction): every callable enumerated by reflection x every argument tuple of arity 0-2 over the 54-value universe, arity 3 seeded (thorough: full for builtins, type tables, operators, forms); "
             "non-trivial = the call got past arity/type validation (result, or an exception other than TypeError, or a panic); distinct = distinct (callable, argument tuple)",
     "trusted_base": [
         "Lean 4.33.0 kernel; axioms allowed: propext, Classical.choice, Quot.sound (audited per theorem on every run)",
@@ -63,7 +72,13 @@ CONFIG = {
         "every other assertion site is an OPEN OBLIGATION, explored by the sweep, not proved (counts in coverage.open_obligations)",
         "argument combinations whose only effect is a giant allocation or an astronomically long loop are NOT run: sequence * n, n << m, pow, round with an operand of magnitude >= 2**63 (harness/c10.go skip()); their number is in coverage.sweep.skipped",
         "memory exhaustion and Go stack exhaustion by unbounded recursion are process aborts Go cannot recover from; recorded as C10-K03",
-        "keyword arguments are swept only through the forms a(b, x=c) / a(*b, **c) and the corpus programs",
+        "receiver sites are discharged under the REPRESENTATION HYPOTHESIS of Bind.receiver_struct: an object whose Python type is a subtype of a built-in type T is a value of the Go type whose Type() returns T "
+        "(regenerated table Generated.goTypeOf; today a class statement cannot derive from a built-in Go type at all - the sweep's class_base form explores it); "
+        "and under the reading of the Go code that the raw Method stored in T.Dict is never handed to Python code (GetAttrString always goes through M__get__; py.TypeCall reads raw entries only from object/type/user classes, "
+        "which hold no Go Method: theorem no_go_method_on_object_or_type)",
+        "RunFrame does NOT recover Go panics and neither do py.RunSrc / RunCode / RunFile, Context.RunCode, vm.EvalCode, repl.REPL.Run or main.go (Vm.CheckException is never deferred): "
+        "an embedder must `defer recover()` around every call into gpython; this check does exactly that (harness invoke/program)",
+        "keyword arguments: every callable x every universe value under each of 33 keyword names (arity 1 full, 1 positional + 1 keyword seeded; thorough: full for builtins and type tables)",
     ],
     "exhaustive": False,
     "dist_tokens": 1,
@@ -118,6 +133,14 @@ def sweep_lines(names, tier, seed):
     lines = []
     for ar in (0, 1, 2):
         lines += [f"S {n} {ar} full" for n in names]
+    # keyword sweep: the last argument goes by keyword, under every name a Go kwlist of the tree knows (harness c10KwNames)
+    kwable = [n for n in names if n[:2] not in ("o:",)]
+    lines += [f"S {n} 1 kwfull" for n in kwable]
+    if tier == "thorough":
+        lines += [f"S {n} 2 kwfull" for n in kwable if n[:2] in ("b:", "t:", "T:")]
+        lines += [f"S {n} 2 kwseeded:{seed}:3000" for n in kwable if n[:2] not in ("b:", "t:", "T:")]
+    else:
+        lines += [f"S {n} 2 kwseeded:{seed}:200" for n in kwable]
     if tier == "thorough":
         for n in names:
             if n[:2] in ("b:", "t:", "T:", "o:", "f:"):
@@ -158,7 +181,7 @@ def extra(run):
         if v not in ("ok", "PANIC"):
             aborted.append((l, (r or "")[:300]))
             continue
-        kinds[f[1][:2] + " arity " + f[2]] += 1
+        kinds[f[1][:2] + " arity " + f[2] + (" kw" if f[3].startswith("kw") else "")] += 1
         m = dict(kv.split("=", 1) for kv in rr.split(" recs=")[0].split(" ") if "=" in kv)
         for k in ("n", "skip", "ok", "err", "panic"):
             tot[k] += int(m.get(k, 0))
@@ -169,7 +192,7 @@ def extra(run):
                 classes[name] += int(cnt)
                 if name != "E:TypeError":
                     nt += int(cnt)
-        if f[3] == "full":
+        if f[3] in ("full", "kwfull"):
             tot["nt_full"] += nt
         tot["nt"] += nt
         if v == "PANIC":
@@ -229,7 +252,7 @@ def extra(run):
     run.cov["known_finding_cases"] = run.cov.get("known_finding_cases", 0) + sum(run.known_hit.values())
     run.cov["sweep"] = {
         "callables": len(names), "callables_by_kind": dict(collections.Counter(n[:2] for n in names)),
-        "universe_values": 50, "batches": len(lines), "calls": tot["n"], "skipped_giant_allocation_or_loop": tot["skip"],
+        "universe_values": 54, "keyword_names": 33, "batches": len(lines), "calls": tot["n"], "skipped_giant_allocation_or_loop": tot["skip"],
         "returned_value": tot["ok"], "raised": tot["err"], "panicked": tot["panic"], "past_validation": tot["nt"],
         "exception_classes": dict(classes.most_common()), "batches_by_kind_and_arity": dict(sorted(kinds.items())),
         "panic_sites": dict(collections.Counter(s for s, _, _, _ in panics)), "aborted_batches": len(aborted),
@@ -266,6 +289,7 @@ def replay(rec):
 
 
 if __name__ == "__main__" and "--regen-expected" in sys.argv:
+    common.sh(["lake", "build", "GPy.C10.Generated"], cwd=common.LEAN, timeout=1800)   # `lake env lean` does not rebuild imports
     rc, out = common.sh(["lake", "env", "lean", os.path.join(common.ROOT, "tools", "c10_expected.lean")], cwd=common.LEAN, timeout=1800)
     if rc == 0:
         open(os.path.join(common.LEAN, "GPy", "C10", "Expected.lean"), "w").write(out)
